@@ -20,8 +20,15 @@ IsRef(e) == e.term.f = "ref"
 \*                                  through type references are wrapped once too often, a DEFAULT given by reference names a constant
 \*                                  that was not generated
 \*   D_C07_reloid_ref               v RELATIVE-OID ::= ref : emitted as `OBJECT IDENTIFIER(REF)`, which is not Rust
+\*   D_C07_optional_component       a SEQUENCE / SET value that gives a value for an OPTIONAL component: the constructor argument is
+\*                                  not wrapped in Some(..)  (and a value that leaves the OPTIONAL component out is refused with a warning)
+GivesOptional(ty, t) == /\ ty.k \in {"SEQUENCE", "SET"} /\ t.f = "seq"
+                        /\ \E i \in DOMAIN ty.comps : ty.comps[i].opt = "optional" /\ \E j \in DOMAIN t.fields : t.fields[j].n = ty.comps[i].n
+RECURSIVE Unref(_)
+Unref(t) == IF t.f = "ref" THEN Unref(t.to) ELSE t
 Class(e) ==
     CASE e.pos = "assign" /\ e.ty.k = "ENUMERATED" /\ e.ty.inline -> "D_C07_inline_enumerated_value"
+      [] GivesOptional(e.ty, Unref(e.term)) /\ e.obs.k = "unknown" -> "D_C07_optional_component"
       \* ... recognisable by what was emitted: an OID constructor or wrappers the evaluator cannot see through; a value that
       \* does evaluate to a SEQUENCE / SET / SEQUENCE OF value and is a different one is not this finding
       [] e.ty.k \in {"SEQUENCE", "SET", "SEQOF"} /\ e.obs.k \in {"unknown", "oid"} -> "D_C07_constructed_value"
